@@ -205,6 +205,25 @@ class SubPoint(Point):
     pass
 
 
+class MA1:
+    """__match_args__ of length 1 / 2 / 3 (MA1, MA2, MA3): positional + keyword sub-patterns naming the same attribute."""
+    __match_args__ = ('x',)
+
+    def __init__(self, *v):
+        self.x, self.y, self.z = (v + (7, 8, 9))[:3]
+
+    def __repr__(self):
+        return '%s(%r, %r, %r)' % (type(self).__name__, self.x, self.y, self.z)
+
+
+class MA2(MA1):
+    __match_args__ = ('x', 'y')
+
+
+class MA3(MA1):
+    __match_args__ = ('x', 'y', 'z')
+
+
 class BadMA:
     __match_args__ = ['x']      # a list: TypeError when used positionally
     x = 0
@@ -359,6 +378,7 @@ SUBJECTS = {
     'dab': lambda: {'ab': 0, 'k': 'ab'}, 'od': lambda: _collections.OrderedDict(k=0, j=1),
     'dd': lambda: _collections.defaultdict(int), 'mymap': lambda: MyMap({'k': 0, 'j': 1}),
     'p01': lambda: Point(0, 1), 'p10': lambda: Point(1, 0), 'sp': lambda: SubPoint(0, 0), 'onlyx': lambda: OnlyX(0),
+    'ma1': lambda: MA1(1, 2, 3), 'ma2': lambda: MA2(1, 2, 3), 'ma3': lambda: MA3(1, 2, 3),
     'badma': lambda: BadMA(), 'badma2': lambda: BadMA2(), 'dp': lambda: DP(0, 1), 'prop': lambda: PropPoint(),
     'red': lambda: Color.RED, 'isub': lambda: IntSub31(0), 'ssub': lambda: StrSub31('ab'), 'eqlog': lambda: EqLog(0),
 }
